@@ -45,8 +45,11 @@ class RowFn(object):
 
 
 def rand_series(rng, n):
-    kind = rng.integers(5)
-    if kind == 0:
+    kind = rng.integers(6)
+    if kind == 5:     # near ties on the crests: neighbouring top samples that differ by 1e-15 .. 1e-7 relative (not equal)
+        x = np.repeat(rng.standard_normal(n), rng.integers(1, 4, size=n))[:n]
+        x = x * (1.0 + rng.choice([0.0, 1e-15, 1e-12, 5e-9, 1e-7], size=n) * rng.choice([-1, 1], size=n))
+    elif kind == 0:
         x = rng.standard_normal(n)
     elif kind == 1:   # integer valued with many exact zeros and ties
         x = rng.integers(-3, 4, size=n).astype(float)
@@ -73,6 +76,11 @@ def build_traces(path, tier, seed):
         n = gen.length(rng, 1, nmax) if tid <= nrec else int(rng.integers(1, 40))
         x = rand_series(rng, n)
         tol = float(rng.choice([0.3, 1.0, 2.0, 2.5, rng.uniform(0.01, 3)]))
+        if rng.integers(4) == 0:
+            # records in small / large units (nanometre displacements, counts): the results are scale free
+            sc = 10.0 ** rng.choice([rng.uniform(-12, -6), rng.uniform(3, 8)])
+            x = x * sc
+            tol = tol * sc
         arg = x if tid % 4 else x.tolist()
         import eqsig
         way = tid % 3      # 0: explicit keywords, 1: defaults (keep_adj_zeros=False, tol=0), 2: signal-level wrappers
